@@ -54,9 +54,10 @@ impl<'a> B<'a> {
                 let f = if self.s.get(self.pos) == Some(&':') {
                     self.eat(":(x")?;
                     let v = self.num()? as u32;
-                    if v == 0 || v > self.tt.n {
-                        return Err(format!("variable x{} out of range", v));
-                    }
+                    let v = match self.tt.pos(v) {
+                        Some(p) => p,
+                        None => return Err(format!("variable x{} out of range", v)),
+                    };
                     self.eat(", ")?;
                     let hi = self.node()?;
                     self.eat(", ")?;
@@ -175,9 +176,10 @@ pub fn dot_fns(text: &str, tt: &TT) -> Result<(Vec<u64>, usize), String> {
             return Ok(f);
         }
         let v = *var.get(&n).ok_or(format!("node {} used but not declared", n))?;
-        if v == 0 || v > tt.n {
-            return Err(format!("node {} has variable {}", n, v));
-        }
+        let v = match tt.pos(v) {
+            Some(p) => p,
+            None => return Err(format!("node {} has variable {}", n, v)),
+        };
         let h = val(*hi.get(&n).ok_or(format!("node {} has no then-edge", n))?, var, hi, lo, tt, memo, depth + 1)?;
         let l = match *lo.get(&n).ok_or(format!("node {} has no else-edge", n))? {
             Edge::Zero => 0,
